@@ -956,49 +956,40 @@ func c16CanonicalPlace(c *Ctx) {
 			continue
 		}
 		n := 0
-		for _, g := range withClosures(fn) {
-			if g == fn && key != "SFTPStore.Prune" {
-				continue // the walk callback (and the workers) are closures; the SFTP walk is a loop
+		seen := map[ssa.Instruction]bool{}
+		// fn, its closures, the new helpers it calls and their closures: the walk callback may
+		// have been moved into a helper that returns it
+		instrsAll(fn, func(_ *ssa.BasicBlock, _ int, ins ssa.Instruction) {
+			if seen[ins] {
+				return
 			}
-			if key == "SFTPStore.Prune" {
-				instrsAll(g, func(_ *ssa.BasicBlock, _ int, ins ssa.Instruction) {
-					x, ok := ins.(*ssa.Call)
-					if !ok || !strings.HasSuffix(callee(x), "sftp.Client).Remove") {
-						return
-					}
-					n++
-					okG, _ := guarded(g, ins, acc)
-					c.verdict(okG, key+":canonical-place", ins.Pos(), "a file is removed only where the store keeps that chunk", "a file is removed for any listed name whose base name parses as a chunk id, wherever it lies: a stray file with a chunk-like name makes prune fail at Remove(nameFromID(id)) with the unreferenced chunks still in place")
-				})
-				continue
+			seen[ins] = true
+			g := ins.Parent()
+			sink, okText, badText := "", "", ""
+			switch x := ins.(type) {
+			case *ssa.Send:
+				if key == "LocalStore.Verify" && typeName(x.X.Type()) == "desync.ChunkID" {
+					sink = "the id is handed to the verify workers"
+				}
+			case *ssa.Call:
+				switch {
+				case key == "LocalStore.Prune" && strings.HasSuffix(callee(x), ".RemoveChunk"):
+					sink = "RemoveChunk(id)"
+				case key == "SFTPStore.Prune" && strings.HasSuffix(callee(x), "sftp.Client).Remove"):
+					sink = "Remove(nameFromID(id))"
+				}
 			}
-			instrsAll(g, func(_ *ssa.BasicBlock, _ int, ins ssa.Instruction) {
-				sink := ""
-				switch x := ins.(type) {
-				case *ssa.Send:
-					if typeName(x.X.Type()) == "desync.ChunkID" {
-						sink = "the id is handed to the verify workers"
-					}
-				case *ssa.Call:
-					if strings.HasSuffix(callee(x), ".RemoveChunk") && len(calls(g, named("path/filepath.Walk"))) == 0 && isWalkCallback(g) {
-						sink = "RemoveChunk(id)"
-					}
-				}
-				if sink == "" {
-					return
-				}
-				n++
-				okG, _ := guarded(g, ins, acc)
-				c.verdict(okG, key+":canonical-place", ins.Pos(), sink+" only for a file found where the store keeps that chunk", sink+" for any file whose base name parses as a chunk id, wherever it lies: a stray file with a chunk-like name makes verify report a chunk the store never held and makes prune fail at RemoveChunk with the unreferenced chunks still in place")
-			})
-		}
+			if sink == "" {
+				return
+			}
+			n++
+			okText = sink + " only for a file found where the store keeps that chunk"
+			badText = sink + " for any file whose base name parses as a chunk id, wherever it lies: a stray file with a chunk-like name makes verify report a chunk the store never held and makes prune fail at the removal with the unreferenced chunks still in place"
+			okG, _ := guarded(g, ins, acc)
+			c.verdict(okG, key+":canonical-place", ins.Pos(), okText, badText)
+		})
 		if n == 0 {
 			c.bad(key+":canonical-place", fn.Pos(), "no site found at which the walk hands an id on")
 		}
 	}
-}
-
-// isWalkCallback: a closure with the signature of filepath.WalkFunc.
-func isWalkCallback(g *ssa.Function) bool {
-	return len(g.Params) == 3 && g.Params[0].Type().String() == "string" && g.Signature.Results().Len() == 1
 }
